@@ -553,12 +553,13 @@ def main():
                 harness_problems.append(gate_problem)
         print('[check] %s: %.1fs, %d distinct violating signatures for %s' % (c['id'], ph['wall'] + time.time() - tc, len(mine), prop)); sys.stdout.flush()
 
-    # ---- required probes (a vacuous batch is not a pass)
-    for p_ in E['required_probes'].get(prop, []):
+    # ---- required probes (a vacuous batch is not a pass).  They guard a PASS: when confirmed, replayable violations are being
+    # reported the batch may legitimately have been cut short (workers stop early after repeated hanging calls).
+    for p_ in ([] if violations_out else E['required_probes'].get(prop, [])):
         if agg['probes'].get(p_, 0) == 0:
             harness_problems.append('required probe %s never fired' % p_)
     watch_inactive = [cid for cid, x in agg['extra'].items() if isinstance(x, dict) and x.get('watch_oracle_active') is False]
-    for f_ in E['required_faults'] + E.get('required_faults_by_prop', {}).get(prop, []):
+    for f_ in ([] if violations_out else E['required_faults'] + E.get('required_faults_by_prop', {}).get(prop, [])):
         if f_ == 'watch_windows_armed' and watch_inactive and len(watch_inactive) == len(agg['extra']):
             # data breakpoints unavailable or not trustworthy on this machine (calibration): the watch oracle is demoted to
             # an observation by the engine and reported as inactive in the evidence - not a vacuous pass of the other oracles
